@@ -671,6 +671,9 @@ func (v *FV) epochGet(e *Epoch, name string) Term {
 		if e.initial && v.arrSort(name) == "(Array Int Slice)" {
 			v.emit(fmt.Sprintf("(assert (forall ((r Int)) (! (=> (<= r N0!) (<= (sl_arr (select %s r)) N0!)) :pattern ((select %s r)))))", t, t))
 		}
+		if !e.initial && v.refArrays[strings.TrimSuffix(name, "$n")] {
+			v.refFieldsAllocated(e, name, t)
+		}
 		if e.initial && v.refArrays[name] {
 			// well-formed initial heap: references stored in it existed before the call
 			switch {
@@ -704,6 +707,9 @@ func (v *FV) epochGet(e *Epoch, name string) Term {
 		if e.mod == nil || e.mod[name] {
 			t = fmt.Sprintf("%s@%d", name, e.id)
 			v.emit(fmt.Sprintf("(declare-const %s %s)", t, v.arrSort(name)))
+			if v.refArrays[strings.TrimSuffix(name, "$n")] {
+				v.refFieldsAllocated(e, name, t)
+			}
 			if v.arrSort(name) == "(Array Int Slice)" {
 				le := v.cmpOp("<=", true)
 				z := v.idxLit(0)
@@ -726,6 +732,22 @@ func (v *FV) sliceFieldsAllocated(e *Epoch, t Term) {
 	}
 	top := fmt.Sprintf("(select %s 0)", v.epochGet(e, "TOP"))
 	v.emit(fmt.Sprintf("(assert (forall ((r Int)) (! (=> (< r %s) (< (sl_arr (select %s r)) %s)) :pattern ((select %s r)))))", top, t, top, t))
+}
+
+// refFieldsAllocated: a reference stored in the heap refers to an object that exists (it lies below the
+// allocation counter of this epoch; nil and sub-object references are below it anyway).
+func (v *FV) refFieldsAllocated(e *Epoch, name string, t Term) {
+	if _, ok := v.arrays["TOP"]; !ok || name == "TOP" {
+		return
+	}
+	top := fmt.Sprintf("(select %s 0)", v.epochGet(e, "TOP"))
+	switch {
+	case v.arrSort(name) == "(Array Int Int)":
+		v.emit(fmt.Sprintf("(assert (forall ((r Int)) (! (< (select %s r) %s) :pattern ((select %s r)))))", t, top, t))
+	case strings.HasSuffix(v.arrSort(name), " Int))") && strings.HasPrefix(v.arrSort(name), "(Array Int (Array "):
+		inner := strings.TrimSuffix(strings.TrimPrefix(v.arrSort(name), "(Array Int (Array "), " Int))")
+		v.emit(fmt.Sprintf("(assert (forall ((r Int) (k %s)) (! (< (select (select %s r) k) %s) :pattern ((select (select %s r) k)))))", inner, t, top, t))
+	}
 }
 
 func (v *FV) heapSet(s *Snapshot, name string, t Term) {
